@@ -18,7 +18,7 @@ pub fn mon() -> Mon {
             "tag-owner and message tag of control responses are left open by the statement and are not judged",
             "the trait-level control generator is judged like a response (SOM/EOM/sequence only) because the caller supplies the Rq bit",
         ],
-        children: no_children,
+        children: rel_child_quarter,
     }
 }
 
